@@ -114,6 +114,7 @@ func semHeaderIndex(w *World, hdr *types.Named) (idx, n int) {
 		return
 	}
 	it := NewInterp(w)
+	it.UseInitValues = true
 	st := it.NewState()
 	_, recv := it.SymbolicObj("hdr")
 	res := it.Call(fn, []Value{recv}, st, 0)
@@ -144,6 +145,7 @@ type semFamily struct {
 // runDecode evaluates the family decoder on an input of length L whose message-type octet is v.
 func (f *semFamily) runDecode(v, L int, reuse bool) (rec *semRec, it *Interp, st *state, res Value, msg, in, data *MemObj) {
 	it = NewInterp(f.w)
+	it.UseInitValues = true
 	it.Fuel = 60000
 	it.CheckBounds = true
 	readerModels(it)
@@ -326,6 +328,7 @@ func (f *semFamily) semEncodeFunc(d *DispFunc) bool {
 	d.DefaultErr, d.TagOK, d.InitOK, d.AllReturn = true, true, true, true
 	for v := 0; v < 256; v++ {
 		it := NewInterp(f.w)
+		it.UseInitValues = true
 		it.Fuel = 60000
 	it.CheckBounds = true
 		rec := &semRec{}
@@ -428,6 +431,7 @@ func semPlainDecode(w *World, pd *PlainDecode) (decided bool, why []string) {
 	}
 	run := func(v, L int, nilPtr, nilSlice bool) (*semRec, *Interp, Value, *MemObj, *MemObj) {
 		it := NewInterp(w)
+		it.UseInitValues = true
 		it.Fuel = 20000
 		it.CheckBounds = true
 		rec := &semRec{}
@@ -511,6 +515,7 @@ func semPlainEncode(w *World, pe *PlainEncode) (decided bool, why []string) {
 	out := PlainEncode{CallOK: true}
 	for _, sh := range []struct{ gmm, gsm bool }{{true, false}, {false, true}, {false, false}, {true, true}} {
 		it := NewInterp(w)
+		it.UseInitValues = true
 		it.Fuel = 20000
 		it.CheckBounds = true
 		rec := &semRec{}
